@@ -9,7 +9,7 @@ T = {  # name: (source dir, property, needs, caught_by, missed_at_first, note)
  "C03_A": ("/tmp/mut/C03/A", "C03", "moral graph with a chordless cycle of length >= 5 (>= 6-node BN) and an elimination order walking along it", ["C02", "C14"], False, "the change is in triangulate(); C03 has no 5-cycle scenario"),
  "C03_B": ("/tmp/mut/C03/B", "C03", "two value-equal factors whose scope lies inside the query variables (replicated sensor CPDs observed in the same state)", ["C03", "C01"], False, ""),
  "C04_A": ("/tmp/mut/C04/A", "C04", "factor over >= 9 variables, maximisation leaving <= 4 of them incl. one at axis position >= 8", ["C04"], True, "wide factors added"),
- "C04_B": ("/tmp/mut/C04/B", "C04", "variable with >= 3 states whose two state orders differ by a non-involutive permutation (3-cycle)", ["C04"], True, "rotated state orders added"),
+ "C04_B_DROPPED": ("/tmp/mut/C04/B_dropped_breaks_3_ApproxInference_tests", "C04", "variable with >= 3 states whose two state orders differ by a non-involutive permutation (3-cycle)", ["C04"], True, "rotated state orders added"),
  "C05_A": ("/tmp/mut/C05/A", "C05", "CPD with >= 3 parents reduced on a middle parent, table that needs normalising", ["C05"], False, ""),
  "C05_B": ("/tmp/mut/C05/B", "C05", "child CPD lists a parent's states in another order than the parent's own CPD", ["C05"], False, ""),
  "C06_A": ("/tmp/mut/C06/A", "C06", "MLE for a node with parents whose state_names are declared in non-sorted order", ["C06"], False, ""),
@@ -71,9 +71,26 @@ for name, (src, prop, needs, caught, missed, note) in T.items():
         continue
     dst = f"/verif/seeded/{name.replace('_', '_r2')}" if "_w" not in name else f"/verif/seeded/{name.replace('_w', '_r2w')}"
     os.makedirs(dst, exist_ok=True)
-    for fn in ("patch.diff", "demo.py", "notes.md"):
+    for fn in ("demo.py", "notes.md"):
         if os.path.exists(os.path.join(src, fn)):
             shutil.copy(os.path.join(src, fn), os.path.join(dst, fn))
+    # patch regenerated against the current /repo HEAD (three-way apply in a scratch worktree), so that `git -C /repo apply` works as is
+    w = "/tmp/keep_wt"
+    subprocess.run(["git", "-C", "/repo", "worktree", "remove", "--force", w], capture_output=True)
+    subprocess.run(["git", "-C", "/repo", "worktree", "add", "-q", "--detach", w, "HEAD"], check=True)
+    ap = subprocess.run(["git", "apply", "--3way", os.path.join(src, "patch.diff")], cwd=w, capture_output=True, text=True)
+    diff = subprocess.run(["git", "diff", "HEAD"], cwd=w, capture_output=True, text=True).stdout
+    subprocess.run(["git", "-C", "/repo", "worktree", "remove", "--force", w], capture_output=True)
+    if ap.returncode != 0 or "<<<<<<<" in diff or not diff.strip():
+        print("SKIP (patch does not merge onto HEAD)", name)
+        shutil.rmtree(dst)
+        continue
+    open(os.path.join(dst, "patch.diff"), "w").write(diff)
+    chk = subprocess.run(["git", "-C", "/repo", "apply", "--check", os.path.join(dst, "patch.diff")], capture_output=True, text=True)
+    if chk.returncode != 0:
+        print("SKIP (regenerated patch does not apply)", name, chk.stderr[:200])
+        shutil.rmtree(dst)
+        continue
     meta = dict(property=prop, name=os.path.basename(dst), breaks=prop, needs_to_manifest=needs, caught_by=caught, missed_on_arrival=missed,
                 confirmed=dict(patch_applies_to_repo_head=head, demo_clean_exit=0, demo_mutant_exit=1, existing_test_suite=tests,
                                check_runs=[dict(checks=r.get("checks")) for r in runs],
